@@ -295,6 +295,10 @@ class _OsShim:
     def rename(self, old, new):
         fs = self._fs
         o, n = fs._norm(old), fs._norm(new)
+        fs.rename_calls += 1
+        if fs.rename_calls in fs.fail_renames:          # injected transient fault: nothing happens
+            fs.mark("rename-failed", old=o, new=n, call=fs.rename_calls)
+            raise PermissionError(errno.EACCES, _os.strerror(errno.EACCES), old)
         if o not in fs.files:
             if o in fs.dirs:
                 raise VfsUnsupported("rename of a directory")
@@ -402,6 +406,8 @@ class VFS:
         self._fds = {}             # fd -> open VFile
         self._nextino = 1
         self.journal = []          # (kind, args..., info-dict)
+        self.rename_calls = 0      # os.rename calls so far
+        self.fail_renames = set()  # ordinal numbers of the os.rename calls that raise EACCES (fault injection)
         self.snapshots = snapshots
         self.snaps = []            # snaps[i] = state after journal[i] (only real operations)
         self.snap_at = []          # journal index of each snapshot
